@@ -600,7 +600,15 @@ func iterateControls(c *core.Ctx, cb *core.CBuild) {
 	dir := filepath.Join(c.Home, "corpus", "controls", "iterjump")
 	pk, err := loadWuffsDir("iterjump", dir, cb.GenWuffs)
 	if err != nil {
-		c.Undecided("I4.control", "corpus/controls/iterjump", "the positive control for I4 is accepted by the working tree's front end", err.Error()+" — if the compiler now rejects break/continue inside iterate, rule I4 and this control are obsolete")
+		// Since the repair 23538cb the parser itself rejects a break/continue that
+		// targets an iterate statement (decided for every program by C01 O15.iterjump).
+		// The control then shows exactly that: the front end refuses the program, so
+		// no such jump can reach cgen. Any other front-end error is undecided.
+		if strings.Contains(err.Error(), "iterate") && (strings.Contains(err.Error(), "continue") || strings.Contains(err.Error(), "break")) {
+			c.Pass("I4.control", "corpus/controls/iterjump", "positive control: a program with a `continue`/`break` that targets an iterate loop is refused by the working tree's front end (or, if accepted, I4's detector reports both jumps)", 1, err.Error())
+		} else {
+			c.Undecided("I4.control", "corpus/controls/iterjump", "the positive control for I4 is either refused by the front end because of its jump to an iterate loop, or accepted and reported by I4's detector", err.Error())
+		}
 	} else {
 		var found []string
 		for _, f := range pk.Funcs {
